@@ -530,9 +530,36 @@ type jsonDec struct {
 }
 
 func (d *jsonDec) typeErr(what string, t types.Type) {
-	if d.err == nil {
-		d.err = d.fr.m.mkError("json: cannot unmarshal " + what + " into Go value of type " + t.String())
+	if d.err != nil {
+		return
 	}
+	m := d.fr.m
+	jp := m.prog.prog.ImportedPackage("encoding/json")
+	rp := m.prog.prog.ImportedPackage("reflect")
+	if jp == nil || jp.Type("UnmarshalTypeError") == nil || rp == nil || rp.Type("rtype") == nil {
+		d.err = m.mkError("json: cannot unmarshal " + what + " into Go value of type " + t.String())
+		return
+	}
+	et := jp.Type("UnmarshalTypeError").Type()
+	cell := zero(et)
+	st := cell.(structure)
+	st[structFieldIndex(et, "Value")] = what
+	st[structFieldIndex(et, "Type")] = iface{t: types.NewPointer(rp.Type("rtype").Type()), v: reflectType{t}}
+	d.err = iface{t: types.NewPointer(et), v: &cell}
+}
+
+// mkSyntaxError builds a *json.SyntaxError like the real decoder returns for malformed input.
+func (m *Machine) mkSyntaxError(msg string, offset int64) value {
+	jp := m.prog.prog.ImportedPackage("encoding/json")
+	if jp == nil || jp.Type("SyntaxError") == nil {
+		return m.mkError(msg)
+	}
+	et := jp.Type("SyntaxError").Type()
+	cell := zero(et)
+	st := cell.(structure)
+	st[structFieldIndex(et, "msg")] = msg
+	st[structFieldIndex(et, "Offset")] = offset
+	return iface{t: types.NewPointer(et), v: &cell}
 }
 
 func jsonKind(raw []byte) byte {
@@ -863,10 +890,13 @@ func (m *Machine) jsonUnmarshal(fr *frame, data []value, dst iface) value {
 		var x any
 		err := json.Unmarshal(cb, &x)
 		msg := "invalid JSON"
-		if err != nil {
+		var off int64
+		if se, ok := err.(*json.SyntaxError); ok {
+			msg, off = se.Error(), se.Offset
+		} else if err != nil {
 			msg = err.Error()
 		}
-		return m.mkError(msg)
+		return m.mkSyntaxError(msg, off)
 	}
 	if dst.t == nil {
 		return m.mkError("json: Unmarshal(nil)")
